@@ -206,4 +206,26 @@ example : ∀ ev ∈ demo, WFEv ev := by
 example : (run .v2 [.express [1] none false 50 .pass 80, .data [1] 1 0, .express [1] none false 500 .pass 0, .tick 60]).trie
     = [([1], 1)] := by decide
 
+-- nack_exactly_the_named / cancel_only_its_target / tick_fires_due_timers / one_data…: an expressed, waiting Interest
+example : (run .v1 (demo.take 3)).sts[1]? = some .waiting ∧
+    ((run .v1 (demo.take 3)).ints[1]?).map (·.name) = some [1, 2] := by decide
+-- linked_entries_are_waiting / nothing_remains: a linked node with two entries, and a non-empty trie
+example : (run .v2 (demo.take 5)).trie = [([1, 2], 0), ([1], 1)] ∧ pend (run .v2 (demo.take 5)) 0 = [0, 1] := by decide
+-- pit_empty_at_quiescence: nobody waits after the demo
+example : ∀ i : Nat, (run .v2 demo).sts[i]? ≠ some IState.waiting := by
+  intro i
+  have : (run .v2 demo).sts = [.done (.data 7) 20, .done (.valFail 7 .fail) 50, .done (.data 7) 20] := by decide
+  rw [this]
+  match i with
+  | 0 | 1 | 2 => simp
+  | n + 3 => simp
+-- complete_exactly_once_after_shutdown: a waiting Interest is cancelled, a validating one is left to its validator
+example : (run .v2 (demo.take 6 ++ [.shutdown])).sts =
+    [.done (.data 7) 20, .validating 7 50, .done (.data 7) 20] := by decide
+example : (run .v2 (demo.take 5 ++ [.shutdown])).sts =
+    [.done .cancelled 20, .done .cancelled 20, .done .cancelled 20] := by decide
+-- frame: the second Interest of the demo, as a function of its own request and the later events
+example : reqTrace .v2 1 ⟨[1, 2], none, true, 110, .fail, 30⟩ 10 .waiting (demo.drop 3) = .done (.valFail 7 .fail) 50 := by
+  decide
+
 end Ndn.C03
